@@ -87,6 +87,55 @@ def mvarray (tbl : List (Nat × Nat)) (ss : List (List Nat)) : Option (Arr Nat) 
       else if ss.length > 1 then some ⟨[S], ss.length, (List.range S).map fun j => m.map (·.getD j 0)⟩
       else some ⟨[], S, [m.headD []]⟩
 
+/-! ### nested arguments (audit 2, finding 9): `mvarray(['01','1X'], ['--','HL'])` — lists of (lists of …) strings
+
+`interpret` maps a nested iterable to a nested list; `np.array(…, dtype=uint8)` needs a homogeneous nesting (else ValueError);
+then the three lines of `mvarray`: fewer than two axes: as is; second-to-last axis longer than 1: `swapaxes(-1, -2)`; else
+`mva[..., 0, :]`.  So every axis in front of the last two is a batch axis and each `(patterns × signals)` block is arranged as
+the flat call arranges it: signals second-to-last, patterns last. -/
+
+/-- `np.array([c0, c1, …])` of already-converted children: homogeneous shapes, else `none` (ValueError) -/
+def stack (cs : List (Option (Flat Nat))) : Option (Flat Nat) :=
+  match cs with
+  | [] => some ⟨[0], []⟩
+  | none :: _ => none
+  | some f0 :: _ =>
+    if cs.all (fun c => c.map (·.shape) == some f0.shape) then
+      some ⟨cs.length :: f0.shape, cs.flatMap fun c => (c.map (·.data)).getD []⟩
+    else none
+
+/-- `interpret(s)` of one string: a one-character string is a scalar, anything else the list of its characters -/
+def interpStr (tbl : List (Nat × Nat)) (s : List Nat) : Flat Nat :=
+  match s with
+  | [c] => ⟨[], [interpretWith tbl c]⟩
+  | _ => ⟨[s.length], s.map (interpretWith tbl)⟩
+
+/-- `np.array(interpret(x), dtype=np.uint8)` for a list of strings / of lists of strings / of lists of lists of strings -/
+def interp1 (tbl : List (Nat × Nat)) (ss : List (List Nat)) : Option (Flat Nat) := stack (ss.map fun s => some (interpStr tbl s))
+def interp2 (tbl : List (Nat × Nat)) (gs : List (List (List Nat))) : Option (Flat Nat) := stack (gs.map (interp1 tbl))
+def interp3 (tbl : List (Nat × Nat)) (hs : List (List (List (List Nat)))) : Option (Flat Nat) := stack (hs.map (interp2 tbl))
+
+/-- `swapaxes(-1,-2)` of one `a × b` block in C order: entry `(j, i)` of the result is entry `(i, j)` of the block -/
+def transposeBlock (a b : Nat) (blk : List Nat) : List Nat :=
+  (List.range b).flatMap fun j => (List.range a).map fun i => blk.getD (i * b + j) 0
+
+/-- the three lines of `mvarray` after `np.array`: `ndim < 2`: as is; `shape[-2] > 1`: `swapaxes(-1,-2)`; `shape[-2] = 1`:
+`mva[..., 0, :]`; `shape[-2] = 0`: that index raises IndexError (not reachable from nested lists) -/
+def arrange (f : Flat Nat) : Option (Flat Nat) :=
+  match f.shape.reverse with
+  | b :: a :: leadRev =>
+    let lead := leadRev.reverse
+    if a > 1 then some ⟨lead ++ [b, a], (chunks (a * b) lead.prod f.data).flatMap (transposeBlock a b)⟩
+    else if a = 1 then some ⟨lead ++ [b], f.data⟩
+    else none
+  | _ => some f
+
+/-- `mvarray(*ss)` / `mvarray(*gs)` / `mvarray(*hs)` for arguments nested 1 / 2 / 3 deep (`mvarrayN1` is `mvarray` again, as
+shape + data; the driver runs both on every flat case) -/
+def mvarrayN1 (tbl : List (Nat × Nat)) (ss : List (List Nat)) : Option (Flat Nat) := (interp1 tbl ss).bind arrange
+def mvarray2 (tbl : List (Nat × Nat)) (gs : List (List (List Nat))) : Option (Flat Nat) := (interp2 tbl gs).bind arrange
+def mvarray3 (tbl : List (Nat × Nat)) (hs : List (List (List (List Nat)))) : Option (Flat Nat) := (interp3 tbl hs).bind arrange
+
 /-- `mv_str(mva, delim)`: `np.choose` (mode 'raise') into the render string; 1-D: joined; 2-D `[sig][pat]`: one
 line per pattern; more than two axes: the items of `sa.swapaxes(-1,-2)` along the first axis are arrays with two
 or more axes and `''.join` of such an array raises TypeError — unless there is nothing to join (an empty first
@@ -165,6 +214,13 @@ def popcountWith (lut : List Nat) (a : List Nat) : Nat := (a.map (lut.getD · 0)
 /-- `bit_in(a, pos) = a[pos >> 3] & _bit_in_lut[pos & 7]` -/
 def bitInWith (lut : List Nat) (a : List Nat) (pos : Nat) : Nat :=
   a.getD (pos >>> 3) 0 &&& lut.getD (pos &&& 7) 0
+
+/-- `popcount(a)` for an integer array of ANY dtype (audit 2, F6): `_pop_count_lut[a]` is numpy indexing into a table of 256
+entries — a value in `0..255` selects its entry, a NEGATIVE value `-256..-1` (signed dtypes) indexes from the end, i.e. selects the
+entry of its low byte in two's complement; anything else raises IndexError (`none`). Not modelled: `bool` arrays (mask indexing,
+raises) and `uint64` values ≥ 2^63 (numpy wraps them to negative indices). -/
+def popcountInt (lut : List Nat) (a : List Int) : Option Nat :=
+  if a.all (fun x => -256 ≤ x && x < 256) then some ((a.map fun x => lut.getD (x % 256).toNat 0).sum) else none
 
 /-- number of one bits of a byte list (specification of popcount) -/
 def onesOf (a : List Nat) : Nat := (unpackBytes a).count true
